@@ -119,7 +119,9 @@ def key_shapes(op):
 
 
 def canon(o):
-  """Order-independent canonical text of a nested value."""
+  """Order-independent canonical text of a nested value (ndarray = list, np int = int)."""
+  if hasattr(o, 'tolist') and not isinstance(o, (list, tuple, dict, str)):
+    o = o.tolist()
   if isinstance(o, dict):
     return '{' + ','.join(sorted(f'{canon(k)}:{canon(v)}' for k, v in o.items())) + '}'
   if isinstance(o, list):
@@ -793,7 +795,11 @@ def _extend(state, op, resolve_fn=resolve):
 TRIGGERS = ['filter-before-any-output-key', 'skip-as-first-stored-output-of-apply',
             'batch-after-skip-output-key', 'batch-after-sink-mixes-self-with-keys',
             'sink-keyword-input-keys', 'falsy-index-0-output-key-of-assign',
-            'falsy-index-0-output-key-of-select']
+            'falsy-index-0-output-key-of-select',
+            'batch-after-select-mixes-self-with-keys']
+# Directed regression chains whose defect is repaired and has no static trigger any more.
+UNTRIGGERED = ('batch-after-skip-output-key', 'batch-after-sink-mixes-self-with-keys',
+               'batch-after-select-mixes-self-with-keys')
 
 
 def gen_trigger_chain(rng, records, trigger):
@@ -825,6 +831,13 @@ def gen_trigger_chain(rng, records, trigger):
                               'in_default': True})
       return _extend(state, {'op': 'batch', 'fn': None, 'n': rng.choice([1, 2, 3]),
                              'cols': K('a', 'b')})[0]
+    if trigger == 'batch-after-select-mixes-self-with-keys':
+      state = _extend(state, {'op': 'apply', 'fn': 'echo', 'in': K(SELF),
+                              'in_default': True, 'out': K(SELF)})
+      state = _extend(state, {'op': 'select', 'fn': None, 'in': K(SELF),
+                              'out': K('k', form='tuple')})
+      return _extend(state, {'op': 'batch', 'fn': None, 'n': rng.choice([1, 2, 3]),
+                             'cols': K('k', form='tuple')})[0]
     if trigger == 'sink-keyword-input-keys':
       keys = _pick_inputs(rng, candidates(state[1]), rng.choice([1, 2]))
       names = ['p', 'q'][:len(keys)]
